@@ -124,3 +124,13 @@ DIRTY_RULE;
 int w_isValidInvalidationReason_c(uint32_t r)
 __CPROVER_assigns()
 __CPROVER_ensures((RET != 0) == (r == F_BLOCK || r == F_POP));
+
+/* C07 "heights follow parents" / C04 (AddEndorsement relies on it): getAncestor(h) on a chain whose heights follow the parent links
+ * returns THE block of the chain at height h (index h0 - h from the tip) when 0 <= h <= h0 and the chain reaches that far, else null. */
+int w_bi_getAncestor_c(uint32_t n, int32_t h0, int32_t target, int32_t steps, int* behind)
+__CPROVER_requires(__CPROVER_is_fresh(behind, sizeof(int)) && n >= 1 && n <= 6 && h0 >= 0 && h0 <= 1000000 && (uint32_t)h0 + 1 >= n)
+/* getAncestor asserts a non-negative height */
+__CPROVER_requires(target >= 0)
+__CPROVER_assigns(*behind)
+__CPROVER_ensures(RET == ((target <= h0 && (uint32_t)(h0 - target) < n) ? h0 - target : -1))
+__CPROVER_ensures(*behind == ((steps >= 0 && steps <= h0 && (uint32_t)steps < n) ? steps : -1));
